@@ -131,31 +131,8 @@ def handle_kani_result(prop, res, ob, outc):
         outc.samples.append(sample)
         outc.inconclusive.append("%s: %s" % (res["obligation"], res.get("reason")))
         return
-    # failed: filter allowed (expected) failures, e.g. a mandated panic
-    allow = getattr(ob, "allow_fail", ())
-    failed = []
-    for f in res.get("failed", []):
-        text = "%s @ %s" % (f["role"], f.get("loc"))
-        if any(re.search(a, text) for a in allow):
-            continue
-        failed.append(f)
+    failed = res.get("failed", [])
     sample["failed_checks"] = [f["role"] for f in failed]
-    if not failed:
-        # only expected failures: treat as proved if covers are fine
-        bad = [c for c in res.get("covers", []) if (c["what"].startswith("must-be-unreachable:")) == (c["status"] == "SATISFIED")]
-        if bad:
-            failed = [{"role": c["what"], "loc": None} for c in bad if c["what"].startswith("must-be-unreachable:")]
-            if not failed:
-                sample["verdict"] = "inconclusive"
-                sample["reason"] = "vacuity guard: cover not satisfied: %s" % [c["what"] for c in bad]
-                outc.samples.append(sample)
-                outc.inconclusive.append("%s: %s" % (res["obligation"], sample["reason"]))
-                return
-        else:
-            sample["verdict"] = "proved"
-            sample["expected_failures_only"] = True
-            outc.samples.append(sample)
-            return
     # replay
     tests = res.get("playback_tests") or []
     confirmed = False
@@ -255,6 +232,9 @@ def run_property(prop, tier, plan):
     outc = Outcome()
     tiers = ("quick",) if tier == "quick" else ("quick", "thorough")
     obls = [o for o in plan.get("k", []) if o.tier in tiers]
+    only = os.environ.get("VERIF_ONLY")  # debugging aid: restrict to obligations whose name contains this
+    if only:
+        obls = [o for o in obls if only in o.name]
     logdir = os.path.join(WORK, "logs", prop)
     n_oblig = 0
     n_proved = 0
